@@ -13,6 +13,9 @@ Proof. intros v t H. destruct v; try reflexivity. discriminate. Qed.
 
 (* the decoder configuration matching an encoder configuration's StrictUnicode *)
 Definition dcfg_of (c : econfig) (pd : bool) : dconfig := Build_dconfig pd (e_strict c) None.
+(* the same with a PersistentLoad hook *)
+Definition dcfg_h (c : econfig) (pd : bool) (load : option (N -> val -> load_result)) : dconfig :=
+  Build_dconfig pd (e_strict c) load.
 
 (* one pushed value by a leaf instruction: nothing else in the decoder state changes (object ids may
    be consumed) *)
@@ -671,10 +674,59 @@ Qed.
 
 (* ---- Part 3: every encoder function, then the value by structural induction ------------------- *)
 
+Lemma push_binpersid_h : forall pd su load g pr bp t, hook_spec load g ->
+  pushes_at (Build_dconfig pd su load) pr bp t -> pushes_at (Build_dconfig pd su load) pr (bp ++ [x51]) (g t).
+Proof.
+  intros pd su load g pr bp t HL Hp i st rest Hpr. rewrite <- app_assoc. cbn [app].
+  destruct (Hp i st (x51 :: rest) Hpr) as [i1 [st1 [x [E1 [S1 [T1 [M1 [P1 H1]]]]]]]].
+  destruct load as [f|]; cbn [hook_spec] in HL.
+  - destruct (HL (Nlen (d_log (set_stack st1 (d_stack st)))) x t T1) as [[Hf Hg]|[o [Hf Ho]]].
+    + eexists; eexists; eexists. split.
+      * eapply exec_trans; [exact E1|]. eapply exec_one; [reflexivity|reflexivity|].
+        cbn [handler]. rewrite S1, (erase_not_mark x t T1). unfold handle_ref. cbn [c_load]. rewrite Hf. reflexivity.
+      * cbn [push add_log set_stack d_stack d_memo d_proto d_heap]. repeat split; try assumption.
+        rewrite Hg. cbn [erase]. rewrite T1. reflexivity.
+    + eexists; eexists; eexists. split.
+      * eapply exec_trans; [exact E1|]. eapply exec_one; [reflexivity|reflexivity|].
+        cbn [handler]. rewrite S1, (erase_not_mark x t T1). unfold handle_ref. cbn [c_load]. rewrite Hf. reflexivity.
+      * cbn [push add_log set_stack d_stack d_memo d_proto d_heap]. repeat split; assumption.
+  - eexists; eexists; eexists. split.
+    + eapply exec_trans; [exact E1|]. eapply exec_one; [reflexivity|reflexivity|].
+      cbn [handler]. rewrite S1, (erase_not_mark x t T1). reflexivity.
+    + cbn [push set_stack d_stack d_memo d_proto d_heap]. repeat split; try assumption.
+      rewrite HL. cbn [erase]. rewrite T1. reflexivity.
+Qed.
+
+Lemma push_persid_h : forall pd su load g pr s, hook_spec load g -> no_lf s ->
+  pushes_at (Build_dconfig pd su load) pr (x50 :: s ++ [x0a]) (g (TStr s)).
+Proof.
+  intros pd su load g pr s HL Hs i st rest Hpr. cbn [app]. rewrite <- app_assoc. cbn [app].
+  destruct load as [f|]; cbn [hook_spec] in HL.
+  - destruct (HL (Nlen (d_log st)) (VStr s) (TStr s) eq_refl) as [[Hf Hg]|[o [Hf Ho]]].
+    + eexists; eexists; eexists. split.
+      * eapply exec_one; [reflexivity|reflexivity|].
+        cbn [handler run]. rewrite (split_line_exact s rest Hs). unfold handle_ref. cbn [c_load]. rewrite Hf. reflexivity.
+      * cbn [push add_log set_stack d_stack d_memo d_proto d_heap]. repeat split; try reflexivity.
+        rewrite Hg. reflexivity.
+    + eexists; eexists; eexists. split.
+      * eapply exec_one; [reflexivity|reflexivity|].
+        cbn [handler run]. rewrite (split_line_exact s rest Hs). unfold handle_ref. cbn [c_load]. rewrite Hf. reflexivity.
+      * cbn [push add_log set_stack d_stack d_memo d_proto d_heap]. repeat split; try reflexivity. exact Ho.
+  - eexists; eexists; eexists. split.
+    + eapply exec_one; [reflexivity|reflexivity|].
+      cbn [handler run]. rewrite (split_line_exact s rest Hs). reflexivity.
+    + cbn [push set_stack d_stack d_memo d_proto d_heap]. repeat split; try reflexivity.
+      rewrite HL. reflexivity.
+Qed.
+
 Section RT.
   Variable c : econfig.
   Variable pd : bool.
-  Let cfg := dcfg_of c pd.
+  Variable load : option (N -> val -> load_result).
+  Variable g : tval -> tval.
+  Hypothesis HL : hook_spec load g.
+  Let cfg := dcfg_h c pd load.
+
   (* the protocol the decoder has been told by the PROTO opcode Encode emits (none below 2) *)
   Definition dproto_of : N := if (2 <=? e_proto c)%Z then Z.to_N (e_proto c) else 0.
   Let pr := dproto_of.
@@ -914,13 +966,13 @@ Section RT.
       apply push_reduce_bytearray; [|exact Pt]. rewrite pybuiltin_agree. exact Pc.
   Qed.
 
-  Lemma rt_ref : forall pid p t, (1 <= e_proto c)%Z -> good p t -> good (enc_ref c pid p) (TRef t).
+  Lemma rt_ref : forall pid p t, (1 <= e_proto c)%Z -> good p t -> good (enc_ref c pid p) (g t).
   Proof.
     intros pid p t Hp [W P]. unfold enc_ref.
     assert (E : (e_proto c =? 0)%Z = false) by (apply Z.eqb_neq; lia). rewrite E.
     split; [apply wok_wseq; [exact W|apply wok_emit]|].
     rewrite wout_wseq; [|exact W|apply wok_emit]. rewrite wout_emit.
-    unfold cfg, dcfg_of in *. apply push_binpersid. exact P.
+    unfold cfg, dcfg_h in *. apply push_binpersid_h; [exact HL|exact P].
   Qed.
 
   Definition encl : list rval -> wprog :=
@@ -940,12 +992,25 @@ Section RT.
     split; [apply wok_wseq; assumption|]. rewrite wout_wseq by assumption. apply pushes_many_cons; assumption.
   Qed.
 
-  Lemma norm_ref_inv : forall o t, norm_ref c o = Some t ->
-    (1 <= e_proto c)%Z /\ exists t0, o = Some t0 /\ t = TRef t0.
+  Lemma norm_ref_inv : forall pid o t, norm_ref c pid o = Some t ->
+    ((1 <= e_proto c)%Z /\ exists t0, o = Some t0 /\ t = TRef t0) \/
+    (e_proto c = 0%Z /\ exists s, pid = RStr SPlain s /\ has_lf s = false /\ t = TRef (TStr s)).
   Proof.
-    intros o t H. unfold norm_ref in H. destruct (1 <=? e_proto c)%Z eqn:E; [|discriminate].
-    apply Z.leb_le in E. split; [exact E|]. destruct o as [t0|]; [|discriminate].
-    inversion H. exists t0. split; reflexivity.
+    intros pid o t H. unfold norm_ref in H. destruct (1 <=? e_proto c)%Z eqn:E.
+    - apply Z.leb_le in E. left. split; [exact E|]. destruct o as [t0|]; [|discriminate].
+      inversion H. exists t0. split; reflexivity.
+    - right. destruct pid as [ | |b|z|z|f|k|ty s|s|l|l|es|es| |m n|m n args|pid|z|fields|ts ref x]; try discriminate.
+      destruct ty; try discriminate.
+      destruct (has_lf s) eqn:L; [discriminate|]. cbn [orb] in H.
+      destruct (e_proto c =? 0)%Z eqn:E0; [|discriminate]. apply Z.eqb_eq in E0. inversion H.
+      subst t. split; [exact E0|]. exists s. repeat split. exact L.
+  Qed.
+
+  Lemma rt_ref0 : forall s p, e_proto c = 0%Z -> has_lf s = false ->
+    good (enc_ref c (RStr SPlain s) p) (g (TStr s)).
+  Proof.
+    intros s p H0 L. unfold enc_ref. rewrite H0, L. cbn [Z.eqb].
+    split; [apply wok_emit|rewrite wout_emit]. unfold cfg, dcfg_h. apply push_persid_h; [exact HL|apply has_lf_no_lf; exact L].
   Qed.
 
   Lemma map_opt_len : forall A B (f : A -> option B) l r, map_opt f l = Some r -> length r = length l.
@@ -957,7 +1022,7 @@ Section RT.
   Qed.
 
   (* the value: whatever norm predicts is what the encoder's bytes make the decoder push *)
-  Theorem rt_enc : forall v t, norm c v = Some t -> good (enc c v) t.
+  Theorem rt_enc : forall v t, norm c v = Some t -> good (enc c v) ((hmap g) t).
   Proof.
     fix IH 1. intros v t H.
     destruct v as [ | |b|z|z|f|k|ty s|s|l|l|es|es| |m n|m n args|pid|z|fields|ts ref x];
@@ -966,8 +1031,10 @@ Section RT.
     - (* nil pointer *) inversion H; subst. apply good_emit. apply push_none.
     - inversion H; subst. apply rt_bool.
     - destruct (in_int64 z) eqn:E; [|discriminate]. inversion H; subst. apply rt_int. exact E.
-    - destruct (0 <=? z)%Z eqn:E; [|discriminate]. inversion H; subst. apply rt_uint.
-      apply Z.leb_le. exact E.
+    - destruct (0 <=? z)%Z eqn:E; [|discriminate]. inversion H; subst.
+      replace ((hmap g) (if (z <=? int64_max)%Z then TInt z else TBig z))
+        with (if (z <=? int64_max)%Z then TInt z else TBig z) by (destruct (z <=? int64_max)%Z; reflexivity).
+      apply rt_uint. apply Z.leb_le. exact E.
     - destruct (float_fits c f) eqn:E; [|discriminate]. inversion H; subst. apply rt_float. exact E.
     - (* strings *)
       destruct ty; cbn [enc];
@@ -977,29 +1044,30 @@ Section RT.
       + apply rt_string'. exact E.
       + apply rt_unicode'. exact E.
       + apply rt_bytes; assumption.
-      + apply rt_bytestring'. exact E.
+      + replace ((hmap g) (bstr_t c s)) with (bstr_t c s) by (unfold bstr_t; destruct (e_strict c); reflexivity).
+        apply rt_bytestring'. exact E.
     - (* bytearray *)
       destruct (barr_ok c s) eqn:E; [|discriminate]. inversion H; subst.
       cbn [enc]. apply rt_bytearray; assumption.
     - (* Tuple *)
       destruct (map_opt (norm c) l) as [ts|] eqn:E; [|discriminate]. inversion H; subst.
-      cbn [enc]. change (good (wrap_tuple c (length l) (encl l)) (TTuple ts)).
-      apply rt_wrap_tuple; [apply (map_opt_len _ _ _ _ _ E)|].
+      cbn [enc hmap]. change (good (wrap_tuple c (length l) (encl l)) (TTuple (map (hmap g) ts))).
+      apply rt_wrap_tuple; [rewrite map_length; apply (map_opt_len _ _ _ _ _ E)|].
       clear H. revert ts E. induction l as [|x r IHl]; intros ts0 E0; cbn in E0;
         [inversion E0; subst; apply rt_list_nil|].
         destruct (norm c x) as [tx|] eqn:Ex; [|discriminate].
         destruct (map_opt (norm c) r) as [tr|] eqn:Er; [|discriminate]. inversion E0; subst.
-        apply rt_list_cons; [apply IH; exact Ex|apply IHl; reflexivity].
+        cbn [map]. apply rt_list_cons; [apply IH; exact Ex|apply IHl; reflexivity].
     - (* List *)
       destruct (map_opt (norm c) l) as [ts|] eqn:E; [|discriminate]. inversion H; subst.
-      cbn [enc]. change (good (if (1 <=? e_proto c)%Z && Nat.eqb (length l) 0 then emit [x5d]
-                               else wseq (emit [x28]) (wseq (encl l) (emit [x6c]))) (TList ts)).
-      assert (G : good_many (encl l) ts).
+      cbn [enc hmap]. change (good (if (1 <=? e_proto c)%Z && Nat.eqb (length l) 0 then emit [x5d]
+                               else wseq (emit [x28]) (wseq (encl l) (emit [x6c]))) (TList (map (hmap g) ts))).
+      assert (G : good_many (encl l) (map (hmap g) ts)).
       { clear H. revert ts E. induction l as [|x r IHl]; intros ts0 E0; cbn in E0;
         [inversion E0; subst; apply rt_list_nil|].
         destruct (norm c x) as [tx|] eqn:Ex; [|discriminate].
         destruct (map_opt (norm c) r) as [tr|] eqn:Er; [|discriminate]. inversion E0; subst.
-        apply rt_list_cons; [apply IH; exact Ex|apply IHl; reflexivity]. }
+        cbn [map]. apply rt_list_cons; [apply IH; exact Ex|apply IHl; reflexivity]. }
       destruct ((1 <=? e_proto c)%Z && Nat.eqb (length l) 0) eqn:E0.
       + apply andb_true_iff in E0. destruct E0 as [_ E0]. apply Nat.eqb_eq in E0.
         destruct l; [|discriminate]. cbn in E. inversion E; subst. apply good_emit. apply push_empty_list.
@@ -1012,20 +1080,23 @@ Section RT.
       destruct (class_ok c m n && plain_classb m n) eqn:E; [|discriminate].
       destruct (map_opt (norm c) args) as [ts|] eqn:Ea; [|discriminate]. inversion H; subst.
       apply andb_true_iff in E. destruct E as [E1 E2].
-      cbn [enc]. change (good (wrap_call c m n (length args) (encl args)) (TCall m n ts)).
-      apply rt_wrap_call; try assumption; [apply (map_opt_len _ _ _ _ _ Ea)|].
+      cbn [enc hmap]. change (good (wrap_call c m n (length args) (encl args)) (TCall m n (map (hmap g) ts))).
+      apply rt_wrap_call; try assumption; [rewrite map_length; apply (map_opt_len _ _ _ _ _ Ea)|].
       clear H. revert ts Ea. induction args as [|x r IHl]; intros ts0 E0; cbn in E0;
         [inversion E0; subst; apply rt_list_nil|].
         destruct (norm c x) as [tx|] eqn:Ex; [|discriminate].
         destruct (map_opt (norm c) r) as [tr|] eqn:Er; [|discriminate]. inversion E0; subst.
-        apply rt_list_cons; [apply IH; exact Ex|apply IHl; reflexivity].
+        cbn [map]. apply rt_list_cons; [apply IH; exact Ex|apply IHl; reflexivity].
     - (* Ref *)
-      apply norm_ref_inv in H. destruct H as [Hp [t0 [E ->]]]. cbn [enc]. apply rt_ref; [exact Hp|].
-      apply IH. exact E.
+      apply norm_ref_inv in H. destruct H as [[Hp [t0 [E ->]]]|[H0 [s [-> [L ->]]]]]; cbn [enc hmap].
+      + apply rt_ref; [exact Hp|]. apply IH. exact E.
+      + apply rt_ref0; assumption.
     - (* big.Int *) inversion H; subst. apply rt_long.
     - (* Ptr *)
       cbn [enc]. destruct ts; [destruct ref as [pid|]|].
-      + apply norm_ref_inv in H. destruct H as [Hp [t0 [E ->]]]. apply rt_ref; [exact Hp|]. apply IH. exact E.
+      + apply norm_ref_inv in H. destruct H as [[Hp [t0 [E ->]]]|[H0 [s [-> [L ->]]]]]; cbn [hmap].
+        * apply rt_ref; [exact Hp|]. apply IH. exact E.
+        * apply rt_ref0; assumption.
       + apply IH. exact H.
       + apply IH. exact H.
   Qed.
@@ -1042,18 +1113,21 @@ Proof.
 Qed.
 
 (* For every value in the fragment (norm c v = Some t), every protocol 0..5, every decoder the
-   caller may already have used (any prior state st), and any bytes following the pickle:
-   Encode succeeds, and Decode of its output returns a value whose identity-free content is t and
-   leaves exactly the following bytes unread. *)
-Theorem encode_decode : forall c pd v t st rest,
+   caller may already have used (any prior state st), any PersistentLoad hook that satisfies
+   hook_spec, and any bytes following the pickle:
+   Encode succeeds, and Decode of its output returns a value whose identity-free content is
+   hmap g t - t with every Ref replaced by what the hook makes of it - and leaves exactly the
+   following bytes unread. *)
+Theorem encode_decode_hooked : forall c pd load g v t st rest,
+  hook_spec load g ->
   (0 <= e_proto c <= 5)%Z -> norm c v = Some t ->
   snd (run_w (encode c v) None) = EOk /\
   exists x st',
-    decode (dcfg_of c pd) st (output (encode c v) ++ rest) = ((Ok x, st'), rest) /\
-    erase x = Some t.
+    decode (dcfg_h c pd load) st (output (encode c v) ++ rest) = ((Ok x, st'), rest) /\
+    erase x = Some (hmap g t).
 Proof.
-  intros c pd v t st rest Hp Hn.
-  destruct (rt_enc c pd v t Hn) as [W P].
+  intros c pd load g v t st rest HL Hp Hn.
+  destruct (rt_enc c pd load g HL v t Hn) as [W P].
   unfold encode.
   assert (E : negb ((0 <=? e_proto c)%Z && (e_proto c <=? 5)%Z) = false).
   { apply negb_false_iff. apply andb_true_iff. split; apply Z.leb_le; lia. }
@@ -1065,7 +1139,7 @@ Proof.
   rewrite output_is_wout, (wout_wseq _ _ Wpre Wtail), (wout_wseq _ _ W (wok_emit _)), wout_emit.
   (* after the optional PROTO prefix the machine is in some state st1 at instruction i1 *)
   assert (X : exists i1 st1,
-            exec (dcfg_of c pd) 0 (start_state st)
+            exec (dcfg_h c pd load) 0 (start_state st)
                  (wout pre ++ (wout (enc c v) ++ [x2e]) ++ rest) i1 st1
                  ((wout (enc c v) ++ [x2e]) ++ rest) /\ d_stack st1 = [] /\ d_proto st1 = dproto_of c).
   { unfold pre. destruct (2 <=? e_proto c)%Z eqn:E2.
@@ -1083,7 +1157,41 @@ Proof.
   eapply exec_decode.
   - eapply exec_trans; [exact X1|exact E2].
   - rewrite S2, S1. reflexivity.
-  - exact (erase_not_mark x t T2).
+  - exact (erase_not_mark x _ T2).
+Qed.
+
+(* without a hook the content is unchanged *)
+(* the harness's registry hook meets hook_spec *)
+Lemma inv_hook_ok : hook_spec (Some inv_load) inv_g.
+Proof.
+  intros idx p t E. destruct p; cbn in E; try discriminate;
+    try (inversion E; subst; left; split; reflexivity);
+    try (match type of E with option_map _ ?e = _ => destruct e eqn:El; [|discriminate] end;
+         inversion E; subst; try (left; split; reflexivity)).
+  - inversion E; subst. right. eexists. split; reflexivity.
+  - right. eexists. split; [reflexivity|]. cbn [inv_g erase]. unfold Nlen.
+    rewrite (map_opt_length _ _ El). reflexivity.
+Qed.
+
+Lemma hmap_TRef : forall t, hmap TRef t = t.
+Proof.
+  fix IH 1. intros t.
+  assert (L : forall l, map (hmap TRef) l = l).
+  { induction l as [|x r IHl]; [reflexivity|]. cbn [map]. rewrite IH, IHl. reflexivity. }
+  destruct t; cbn [hmap]; try reflexivity; try (rewrite L; reflexivity).
+  rewrite IH. reflexivity.
+Qed.
+
+Theorem encode_decode : forall c pd v t st rest,
+  (0 <= e_proto c <= 5)%Z -> norm c v = Some t ->
+  snd (run_w (encode c v) None) = EOk /\
+  exists x st',
+    decode (dcfg_of c pd) st (output (encode c v) ++ rest) = ((Ok x, st'), rest) /\
+    erase x = Some t.
+Proof.
+  intros c pd v t st rest Hp Hn.
+  destruct (encode_decode_hooked c pd None TRef v t st rest (fun _ => eq_refl) Hp Hn) as [A [x [st' [B C]]]].
+  split; [exact A|]. exists x, st'. split; [exact B|]. rewrite hmap_TRef in C. exact C.
 Qed.
 
 (* ---- Part 5: re-encoding what Decode returned (C05) ---------------------------------------------- *)
@@ -1138,36 +1246,43 @@ Proof.
   - (* VRef *)
     destruct (erase p) as [tp|] eqn:Ep; [|discriminate].
     destruct (reify p) as [rp|] eqn:Rp; [|discriminate].
-    inversion He; inversion Hr; subst. cbn in Hf |- *.
-    apply andb_true_iff in Hf. destruct Hf as [H1 H2]. unfold norm_ref. rewrite H1.
-    rewrite (IHp tp rp eq_refl eq_refl H2). reflexivity.
+    inversion He; inversion Hr; subst. cbn [fits] in Hf. cbn [norm]. unfold norm_ref.
+    destruct (1 <=? e_proto c)%Z eqn:H1.
+    + rewrite (IHp tp rp eq_refl eq_refl Hf). reflexivity.
+    + destruct tp; try discriminate. apply erase_str_inv in Ep. subst p. cbn in Rp. inversion Rp; subst.
+      apply negb_true_iff in Hf. rewrite Hf. reflexivity.
 Qed.
 
-(* every erasable value has a reflection *)
-Lemma reify_total_list : forall l,
-  Forall (fun x => forall t, erase x = Some t -> exists r, reify x = Some r) l ->
-  forall ts, map_opt erase l = Some ts -> exists rs, map_opt reify l = Some rs.
+(* every erasable value that fits has a reflection (objects made by a PersistentLoad hook do not) *)
+Lemma reify_total_list : forall c l,
+  Forall (fun x => forall t, erase x = Some t -> fits c t = true -> exists r, reify x = Some r) l ->
+  forall ts, map_opt erase l = Some ts -> forallb (fits c) ts = true -> exists rs, map_opt reify l = Some rs.
 Proof.
-  intros l F. induction F as [|x l Hx F IH]; intros ts He; cbn in He.
+  intros c l F. induction F as [|x l Hx F IH]; intros ts He Hf; cbn in He.
   - exists []. reflexivity.
   - destruct (erase x) as [tx|] eqn:Ex; [|discriminate].
-    destruct (map_opt erase l) as [tl|] eqn:El; [|discriminate].
-    destruct (Hx tx eq_refl) as [rx Rx]. destruct (IH tl eq_refl) as [rl Rl].
+    destruct (map_opt erase l) as [tl|] eqn:El; [|discriminate]. inversion He; subst.
+    cbn in Hf. apply andb_true_iff in Hf. destruct Hf as [F1 F2].
+    destruct (Hx tx eq_refl F1) as [rx Rx]. destruct (IH tl eq_refl F2) as [rl Rl].
     exists (rx :: rl). cbn. rewrite Rx, Rl. reflexivity.
 Qed.
 
-Lemma reify_total : forall x t, erase x = Some t -> exists r, reify x = Some r.
+Lemma reify_total : forall c x t, erase x = Some t -> fits c t = true -> exists r, reify x = Some r.
 Proof.
-  intros x. induction x as [ |b|z|z|i z|b|a b|s|s|s|s|i l IHl|l IHl|i|i|m n|m n l IHl|p IHp|tg| ] using val_ind';
-    intros t He; cbn in He; try discriminate; cbn [reify]; try (eexists; reflexivity).
-  - destruct (map_opt erase l) as [tl|] eqn:El; [|discriminate].
-    destruct (reify_total_list l IHl tl El) as [rl Rl]. rewrite Rl. eexists; reflexivity.
-  - destruct (map_opt erase l) as [tl|] eqn:El; [|discriminate].
-    destruct (reify_total_list l IHl tl El) as [rl Rl]. rewrite Rl. eexists; reflexivity.
-  - destruct (map_opt erase l) as [tl|] eqn:El; [|discriminate].
-    destruct (reify_total_list l IHl tl El) as [rl Rl]. rewrite Rl. eexists; reflexivity.
-  - destruct (erase p) as [tp|] eqn:Ep; [|discriminate].
-    destruct (IHp tp eq_refl) as [rp Rp]. rewrite Rp. eexists; reflexivity.
+  intros c x. induction x as [ |b|z|z|i z|b|a b|s|s|s|s|i l IHl|l IHl|i|i|m n|m n l IHl|p IHp|tg| ] using val_ind';
+    intros t He Hf; cbn in He; try discriminate; cbn [reify]; try (eexists; reflexivity).
+  - destruct (map_opt erase l) as [tl|] eqn:El; [|discriminate]. inversion He; subst. cbn in Hf.
+    destruct (reify_total_list c l IHl tl El Hf) as [rl Rl]. rewrite Rl. eexists; reflexivity.
+  - destruct (map_opt erase l) as [tl|] eqn:El; [|discriminate]. inversion He; subst. cbn in Hf.
+    destruct (reify_total_list c l IHl tl El Hf) as [rl Rl]. rewrite Rl. eexists; reflexivity.
+  - destruct (map_opt erase l) as [tl|] eqn:El; [|discriminate]. inversion He; subst. cbn in Hf.
+    apply andb_true_iff in Hf. destruct Hf as [_ Hf].
+    destruct (reify_total_list c l IHl tl El Hf) as [rl Rl]. rewrite Rl. eexists; reflexivity.
+  - destruct (erase p) as [tp|] eqn:Ep; [|discriminate]. inversion He; subst. cbn [fits] in Hf.
+    destruct (1 <=? e_proto c)%Z.
+    + destruct (IHp tp eq_refl Hf) as [rp Rp]. rewrite Rp. eexists; reflexivity.
+    + destruct tp; try discriminate. apply erase_str_inv in Ep. subst p. eexists; reflexivity.
+  - inversion He; subst. discriminate.
 Qed.
 
 (* Decode, Encode the result at protocol c, Decode again: the same content.  The second decoder
@@ -1180,7 +1295,7 @@ Theorem decode_encode_decode : forall c pd x t st rest,
                    erase x' = erase x.
 Proof.
   intros c pd x t st rest Hp He Hf.
-  destruct (reify_total x t He) as [r Hr]. exists r. split; [exact Hr|].
+  destruct (reify_total c x t He Hf) as [r Hr]. exists r. split; [exact Hr|].
   pose proof (norm_reify c x t r He Hr Hf) as Hn.
   destruct (encode_decode c pd r t st rest Hp Hn) as [W [x' [st' [D E]]]].
   split; [exact W|]. exists x', st'. split; [exact D|]. rewrite E, He. reflexivity.
@@ -1218,8 +1333,9 @@ Proof.
     cbn in Hw, Hf |- *. apply andb_true_iff in Hf. destruct Hf as [Hc Hl]. rewrite Hc.
     eapply fits_typed_list; eassumption.
   - destruct (erase p) as [tp|] eqn:Ep; [|discriminate]. inversion He; subst.
-    cbn in Hw, Hf |- *. apply andb_true_iff in Hf. destruct Hf as [H1 H2]. rewrite H1.
-    apply IHp; [exact Hw|reflexivity|exact H2].
+    cbn [wt fits_proto fits] in Hw, Hf |- *. destruct (1 <=? e_proto c)%Z.
+    + apply IHp; [exact Hw|reflexivity|exact Hf].
+    + exact Hf.
 Qed.
 
 (* C05 for the heap-free fragment: whatever Decode returned (first call, any input, any prior
